@@ -538,8 +538,15 @@ func (h *handler) runStream(
 		}
 	}
 	writerFunc := func(ctx context.Context, r *goatorepo.Rpc) error {
+		done := ctx.Done()
+		if r.GetTrailer() != nil && ctx.Err() != context.Canceled {
+			// The stream's own deadline may have passed (it is armed from the
+			// caller's grpc-timeout), but the caller is still owed the final
+			// status: only the end of the connection stops a trailer.
+			done = h.ctx.Done()
+		}
 		select {
-		case <-ctx.Done():
+		case <-done:
 			return ctx.Err()
 		case h.writeChan <- r:
 			break
